@@ -1,7 +1,9 @@
 package main
 
 // C11: several processes × goroutines doing Put / GetBytes / GetFile concurrently under a controlled
-// scheduler (random schedules; all schedules with at most two preemptions on two-task configurations).
+// scheduler (random schedules; all schedules with at most two preemptions on two-task configurations;
+// three-task "window" schedules: writer A stopped part-way, writer B runs some steps, A finishes, a reader
+// looks before B goes on).  The real-goroutine lane on the unmodified package is in corr11shared.go.
 
 import (
 	"bytes"
@@ -70,9 +72,27 @@ func ntasks(procs string) int {
 	return n
 }
 
+// hasFaultySrc: some Put of the scenario reads from a source that misbehaves (op `P`).
+func hasFaultySrc(spec string) bool { return strings.Contains(spec, "P") }
+
 // oracleC11 checks the statement of C11 on the reported results and on the final directory.
+//
+// Fault-free scenarios (the property's quantifier): every successful lookup reports an entry / bytes stored
+// for that very id by some Put, bytes and file agree with the reported OutputID and size; an id that IS
+// stored (by the setup, or by a Put of this run that had returned before the lookup was called) and for
+// which every Put of the scenario offers the same content is never missed; every Put succeeds; after
+// quiescence every stored id is readable.
+//
+// Scenarios in which one writer's SOURCE fails (a `P` op; C12's fault next to C11's schedules) are outside
+// the quantifier of both properties for everything that relies on the size gate (DESIGN §6.4: the failing
+// writer's Truncate(0) can leave a hole under another writer of the same output, GetFile then names a file
+// of the right size with a hole, lookups may miss).  What C11 states without reservation — and what the
+// checksum gate guarantees in every directory state (getBytes_gate_any_world) — is still demanded there:
+// a SUCCESSFUL GetBytes returns bytes whose SHA-256 and length are the reported OutputID and size, and the
+// reported entry is one stored for the id.  Nothing else is asserted in those scenarios.
 func oracleC11(o *outcome, dir string, s c11scn, t *trace) {
 	o.oracle["C11"]++
+	faulty := hasFaultySrc(s.procs) || hasFaultySrc(s.setup)
 	stored := map[int]map[int]bool{} // id -> content indices offered by some Put
 	add := func(l [][2]int) {
 		for _, p := range l {
@@ -85,15 +105,15 @@ func oracleC11(o *outcome, dir string, s c11scn, t *trace) {
 	setupPuts, runPuts := putsOf(s.setup), putsOf(s.procs)
 	add(setupPuts)
 	add(runPuts)
-	// ids whose only concurrent writers re-store what the setup stored last
-	stable := map[int]int{}
-	for _, p := range setupPuts {
-		stable[p[0]] = p[1]
+	// ids for which every Put of the scenario offers one and the same content
+	uniform := map[int]bool{}
+	for id, cs := range stored {
+		uniform[id] = len(cs) == 1
 	}
-	for _, p := range runPuts {
-		if c, ok := stable[p[0]]; ok && c != p[1] {
-			delete(stable, p[0])
-		}
+	// storedAt[id]: trace position from which the id counts as stored (-1: by the setup)
+	storedAt := map[int]int{}
+	for _, p := range setupPuts {
+		storedAt[p[0]] = -1
 	}
 	matches := func(id int, out string, size int) bool {
 		for ci := range stored[id] {
@@ -104,18 +124,22 @@ func oracleC11(o *outcome, dir string, s c11scn, t *trace) {
 		}
 		return false
 	}
-	cur := map[int][]string{}
-	for _, e := range t.evs {
+	type callEv struct {
+		args []string
+		at   int
+	}
+	cur := map[int]callEv{}
+	for i, e := range t.evs {
 		switch e.op {
 		case "call":
-			cur[e.task] = e.args
+			cur[e.task] = callEv{e.args, i}
 		case "ret":
 			call := cur[e.task]
-			if len(call) < 2 || len(e.args) < 2 || call[0] != e.args[0] {
+			if len(call.args) < 2 || len(e.args) < 2 || call.args[0] != e.args[0] {
 				continue
 			}
-			kind := call[0]
-			id, _ := strconv.Atoi(call[1])
+			kind := call.args[0]
+			id, _ := strconv.Atoi(call.args[1])
 			switch kind {
 			case "getbytes", "getfile", "get":
 				if e.args[1] == "ok" {
@@ -124,17 +148,29 @@ func oracleC11(o *outcome, dir string, s c11scn, t *trace) {
 					if !matches(id, out, size) {
 						o.violation = append(o.violation, [4]string{"C11", o.caseStr, fmt.Sprintf("%s(id%d) returned an entry (out %s, size %d) that no Put stored for this id", kind, id, trunc(out, 12), size), "foreign-entry"})
 					}
-					if kind != "get" && len(e.args) >= 6 {
+					if kind != "get" && len(e.args) >= 6 && (!faulty || kind == "getbytes") {
 						ln, _ := strconv.Atoi(e.args[5])
 						if e.args[4] != out || ln != size {
-							o.violation = append(o.violation, [4]string{"C11", o.caseStr, fmt.Sprintf("%s(id%d) returned bytes (len %d, sha %s) that do not match the reported OutputID/size", kind, id, ln, trunc(e.args[4], 12)), "corrupt-data"})
+							class := "corrupt-data"
+							if faulty {
+								class = "corrupt-bytes-beside-failing-writer"
+							}
+							o.violation = append(o.violation, [4]string{"C11", o.caseStr, fmt.Sprintf("%s(id%d) returned bytes (len %d, sha %s) that do not match the reported OutputID/size (out %s, size %d)", kind, id, ln, trunc(e.args[4], 12), trunc(out, 12), size), class})
 						}
 					}
-				} else if _, ok := stable[id]; ok {
-					o.violation = append(o.violation, [4]string{"C11", o.caseStr, fmt.Sprintf("%s(id%d) missed although the id was stored and only identical content was being re-stored", kind, id), "restore-visible"})
+				} else if at, ok := storedAt[id]; ok && uniform[id] && at < call.at && !faulty {
+					class, how := "restore-visible", "by the setup"
+					if at >= 0 {
+						class, how = "stored-then-missed", "by a Put of this run that had already returned"
+					}
+					o.violation = append(o.violation, [4]string{"C11", o.caseStr, fmt.Sprintf("%s(id%d) missed although the id was stored (%s) and only identical content was being re-stored", kind, id, how), class})
 				}
 			case "put":
-				if e.args[1] != "ok" {
+				if e.args[1] == "ok" {
+					if _, ok := storedAt[id]; !ok {
+						storedAt[id] = i
+					}
+				} else if !faulty {
 					o.violation = append(o.violation, [4]string{"C11", o.caseStr, fmt.Sprintf("Put(id%d) failed without any injected fault", id), "put-failed"})
 				}
 			}
@@ -143,12 +179,21 @@ func oracleC11(o *outcome, dir string, s c11scn, t *trace) {
 	if t.end != "done" {
 		return
 	}
-	// quiescence: every stored id is readable, with bytes some Put stored for it
 	cc, err := cache.Open(dir)
 	if err != nil {
 		o.obs = append(o.obs, "oracle: cache.Open: "+err.Error())
 		return
 	}
+	if faulty {
+		// only the checksum-verified lookup is asserted
+		for id := range stored {
+			if data, e, err := cc.GetBytes(actionID(id)); err == nil && (sha256.Sum256(data) != [32]byte(e.OutputID) || int64(len(data)) != e.Size) {
+				o.violation = append(o.violation, [4]string{"C11", o.caseStr, fmt.Sprintf("after all tasks finished GetBytes(id%d) returns %d bytes that do not hash to the reported OutputID (size %d)", id, len(data), e.Size), "corrupt-bytes-beside-failing-writer"})
+			}
+		}
+		return
+	}
+	// quiescence: every stored id is readable, with bytes some Put stored for it
 	for id, cs := range stored {
 		data, e, err := cc.GetBytes(actionID(id))
 		file, fe, ferr := cc.GetFile(actionID(id))
@@ -344,11 +389,55 @@ func dfsConfigs() []c11scn {
 	}
 }
 
+// windowConfigs: three tasks — writer A, writer B, observer R (lookups).  Enumerated schedules
+// (bounded preemption, see windowSchedules): A is stopped after i of its steps, B runs j steps, then either
+// A runs to its end and R looks while B is still part-way ("after-first-writer"), or R looks at once while
+// both writers are part-way ("both-in-progress"); everybody then finishes.  This is the three-party window in
+// which something one writer did to the shared output (or index entry) under the other is visible to a
+// reader although a Put of the id has already returned.
+func windowConfigs() []c11scn {
+	mk := func(setup, procs, label string) c11scn {
+		return c11scn{setup: setup, procs: procs, now: nowFresh, label: label}
+	}
+	return []c11scn{
+		mk("", "p1,3|p1,3|f1;b1", "window:same-id-same-content"),
+		mk("", "p1,3|p2,3|f1;b1;f2", "window:two-ids-same-output"),
+		mk("p1,3", "p1,3|p1,3|b1;f1", "window:restore-twice"),
+		mk("p1,6", "p1,3|p1,3|f1;b1", "window:overwrite-twice"),
+		mk("", "p1,7|p1,7|f1;b1", "window:multi-chunk-same-content"),
+		// one writer's source fails on its second pass (restricted oracle, see oracleC11)
+		mk("", "p1,3|P2,3,e0|b1;g1;b2", "window:failing-writer-second"),
+		mk("", "P2,3,e1|p1,3|b1;g1;b2", "window:failing-writer-first"),
+		mk("", "p1,3|P2,3,c2|b1;b2", "window:changing-source-writer"),
+		mk("", "p1,7|P2,7,s40000|b1;b2", "window:multi-chunk-short-source-writer"),
+	}
+}
+
+// windowSchedules lists the schedules of one window configuration given the step counts of A and B.
+// thin > 1 keeps every thin-th (i, j) only (the multi-chunk configurations in the quick tier: their 70 000-byte
+// contents make each replay expensive).
+func windowSchedules(na, nb, stride, thin, salt int) []string {
+	var out []string
+	for i := 1; i <= na; i++ {
+		for j := 1; j <= nb; j++ {
+			if thin > 1 && (i*5+j*3+salt)%thin != 0 {
+				continue
+			}
+			out = append(out, fmt.Sprintf("g:0*%d,1*%d,0*100000,2*100000", i, j))
+			if stride <= 1 || (i+j+salt)%stride == 0 {
+				out = append(out, fmt.Sprintf("g:0*%d,1*%d,2*100000", i, j))
+			}
+		}
+	}
+	return out
+}
+
 func (h *harness) runC11() {
 	r := rand.New(rand.NewSource(h.seed*7919 + 11))
 	var scns []c11scn
 	// bounded-preemption enumeration: task a runs i steps, task b runs j steps, a runs to its end, then b
-	probe := dfsConfigs()
+	ndfsCfg := len(dfsConfigs())
+	probe := append(dfsConfigs(), windowConfigs()...)
 	steps := make([][2]int, len(probe))
 	h.parallel(len(probe), func(w *worker, i int) {
 		clearDir(w.dir)
@@ -376,7 +465,7 @@ func (h *harness) runC11() {
 	if h.tier != "thorough" && !h.search {
 		stride = 2
 	}
-	for ci, s := range probe {
+	for ci, s := range probe[:ndfsCfg] {
 		for first := 0; first < 2; first++ {
 			other := 1 - first
 			for i := 0; i <= steps[ci][first]; i++ {
@@ -403,6 +492,18 @@ func (h *harness) runC11() {
 		}
 	}
 	ndfs := len(scns)
+	for ci, s := range probe[ndfsCfg:] {
+		thin := 1
+		if stride > 1 && strings.Contains(s.label, "multi-chunk") {
+			thin = 4
+		}
+		for _, sched := range windowSchedules(steps[ndfsCfg+ci][0], steps[ndfsCfg+ci][1], stride, thin, ci) {
+			c := s
+			c.sched = sched
+			scns = append(scns, c)
+		}
+	}
+	nwin := len(scns) - ndfs
 	nrand := 2000
 	if h.tier == "thorough" {
 		nrand = 60000
@@ -418,7 +519,8 @@ func (h *harness) runC11() {
 	h.merge(outs)
 	h.res.Distribution["c11:bounded-preemption-schedules"] = ndfs
 	h.res.Distribution["c11:random-schedules"] = nrand
-	h.res.Extra["c11_exhaustive"] = fmt.Sprintf("all schedules with at most 2 preemptions (stride %d in this tier) of %d two-task configurations", stride, len(probe))
+	h.res.Distribution["c11:window-schedules"] = nwin
+	h.res.Extra["c11_exhaustive"] = fmt.Sprintf("all schedules with at most 2 preemptions (stride %d in this tier) of %d two-task configurations; %d three-task window configurations (writer A stopped after i steps, writer B runs j steps, then A finishes and a reader looks before B goes on: all i, j; reader at once while both are part-way: stride %d)", stride, ndfsCfg, len(probe)-ndfsCfg, stride)
 }
 
 func (h *harness) replayC11(x string) {
